@@ -101,6 +101,9 @@ def export_to_yaml(statechart: Statechart, filepath: str = None) -> str:
     output = StringIO()
 
     yml = yaml.YAML(typ='safe', pure=True)
+    # Always use the block style: in flow style, plain scalars such as "? x" are emitted
+    # unquoted and the resulting document cannot be parsed back
+    yml.default_flow_style = False
     yml.dump(export_to_dict(statechart), output)
 
     if filepath:
